@@ -108,6 +108,7 @@ class TokenizerModel:
         self.charsuntil_sites: List[Tuple[str, int, frozenset, bool]] = []
         self.appropriate_exprs: Dict[str, ast.AST] = {}
         self.tmp_script_tests: Dict[str, list] = {}
+        self.unicode_lower_sites: Dict[tuple, int] = {}
         self._check_emit_current_token()
         self.inlined: Dict[str, FuncInfo] = {}
         for name, m in self.cls.methods.items():
@@ -404,6 +405,10 @@ class TokenizerModel:
                     arm.ops.append(("set", field, st.value.value))
                 elif norm(st.value) == "%s.translate(asciiUpper2Lower)" % tgt:
                     arm.ops.append(("lowercase", field))
+                elif norm(st.value) in ("%s.lower()" % tgt, "%s.casefold()" % tgt):
+                    # Unicode case folding where the standard folds ASCII letters only: judged by C02.6
+                    arm.ops.append(("lowercase", field))
+                    self.unicode_lower_sites.setdefault((sname, field), st.lineno)
                 else:
                     arm.ops.append(("set", field, self._sym(st.value, env, atom)))
                 return
